@@ -189,8 +189,9 @@ def run(chk: Check, model):
     ok = len(fo) == 1 and gas and len(fo[0].args) == 5
     if ok:
         dd = fo[0].args[4]
-        on = T.assume(dd, gas[0].guard, True)
-        ok = on == T.mk_replace(gas[0].recv, (("alpha", gas[0].term),)) and T.assume(dd, gas[0].guard, False) == gas[0].recv
+        g_in = T.assume(gas[0].guard, fo[0].guard, True)  # the branch condition relative to the (unconditional) from_outputs call
+        want_on = T.mk_replace(gas[0].recv, (("alpha", gas[0].term),))
+        ok = all(t == (want_on if holds else gas[0].recv) for holds, t in flow.select_cases(dd, g_in))
     chk.add("C10.saturate", "init_inputs stores the saturated alpha", bool(ok), "the input state must carry delay_dist.replace(alpha=get_alpha(...)) (or the configured distribution)", chk.loc(f_ii))
     f_id = model.func("node.BaseNode.init_delays")
     rd = SymEval(model).run_function(f_id)
